@@ -6,6 +6,7 @@ import DimodProofs.C03Fix
 import DimodProofs.C03CopyCqm
 import DimodProofs.C03Multi
 import DimodProofs.C03Mixin
+import DimodProofs.C03PyFix
 
 /-! # C03 — fixing a variable equals substituting its value everywhere
 
@@ -191,5 +192,163 @@ example : (({ lin := [2], adj := some [[(0, 3)]], off := 1 } : QMB Rat).fixVaria
 example : (D4Witness.cqm0.fixVariable 0 2).obj.qb.off = 17 := D4Witness.fix_inplace_new_value
 example : (D4Witness.cqm0.fixVariables [(0, 2)]).obj.qb.off = 17 := D4Witness.fix_copy_value
 example : polySpec (fun _ => 0) (polyFixVariables C03Witness.p [(0, 1)]) = 6 := C03Witness.d5_new_value
+
+/-! ## several variables: the fold over the pairs = simultaneous substitution, in any order; every variable fixed -/
+
+/-- **order independence, BQM / QM**: `fix_variables` over two orderings of the same duplicate-free pairs both succeed, leave
+    the same set of labels, and — evaluated by label at any valuation that gives the fixed labels their values — both
+    results have the energy of the original at that valuation (simultaneous substitution), hence of each other -/
+theorem qm_fix_order_independent (m : QmL R) (hm : m.Ok) (f1 f2 : List (Label × R)) (hp : f1.Perm f2)
+    (hfd : (f1.map (·.1)).Nodup) (hall : ∀ p ∈ f1, p.1 ∈ m.labels) (val : Label → R) (hval : ∀ p ∈ f1, val p.1 = p.2) :
+    (m.fixVariables f1).2 = true ∧ (m.fixVariables f2).2 = true ∧
+    (∀ l, l ∈ (m.fixVariables f1).1.labels ↔ l ∈ (m.fixVariables f2).1.labels) ∧
+    (m.fixVariables f1).1.qb.energy (valL val (m.fixVariables f1).1.labels) = m.qb.energy (valL val m.labels) ∧
+    (m.fixVariables f2).1.qb.energy (valL val (m.fixVariables f2).1.labels) = m.qb.energy (valL val m.labels) := by
+  have hfd2 : (f2.map (·.1)).Nodup := (hp.map (·.1)).nodup_iff.mp hfd
+  have hall2 : ∀ p ∈ f2, p.1 ∈ m.labels := fun p h => hall p (hp.mem_iff.mpr h)
+  have hval2 : ∀ p ∈ f2, val p.1 = p.2 := fun p h => hval p (hp.mem_iff.mpr h)
+  obtain ⟨a1, _, _, a4, a5⟩ := qm_fix_many_eval m hm f1 hfd hall val hval
+  obtain ⟨b1, _, _, b4, b5⟩ := qm_fix_many_eval m hm f2 hfd2 hall2 val hval2
+  refine ⟨a1, b1, fun l => ?_, a5, b5⟩
+  rw [a4 l, b4 l]
+  have : l ∈ f1.map (·.1) ↔ l ∈ f2.map (·.1) := (hp.map (·.1)).mem_iff
+  rw [this]
+
+/-- **every variable fixed, BQM / QM** (`fix_all_vars_const`): no variable is left and the model is the constant — its offset,
+    and its energy at any sample — equal to the original's energy at the fixed values -/
+theorem qm_fix_all_vars_const (m : QmL R) (hm : m.Ok) (fixed : List (Label × R)) (hfd : (fixed.map (·.1)).Nodup)
+    (hall : ∀ p ∈ fixed, p.1 ∈ m.labels) (hcover : ∀ l ∈ m.labels, l ∈ fixed.map (·.1))
+    (val : Label → R) (hval : ∀ p ∈ fixed, val p.1 = p.2) :
+    (m.fixVariables fixed).1.labels = [] ∧ (m.fixVariables fixed).1.qb.off = m.qb.energy (valL val m.labels) ∧
+    ∀ x, (m.fixVariables fixed).1.qb.energy x = m.qb.energy (valL val m.labels) := by
+  obtain ⟨_, a2, _, a4, a5⟩ := qm_fix_many_eval m hm fixed hfd hall val hval
+  have hnil : (m.fixVariables fixed).1.labels = [] := by
+    apply List.eq_nil_iff_forall_not_mem.mpr
+    intro l hl
+    have := (a4 l).mp hl
+    exact this.2 (hcover l this.1)
+  have hlin : (m.fixVariables fixed).1.qb.lin = [] := by
+    have := a2.len
+    rw [hnil] at this
+    exact List.length_eq_zero_iff.mp this.symm
+  have hconst : ∀ x, (m.fixVariables fixed).1.qb.energy x = (m.fixVariables fixed).1.qb.off := by
+    intro x
+    unfold QMB.energy
+    cases (m.fixVariables fixed).1.qb.adj <;> simp [hlin, QMB.adjLoop, QMB.linLoop]
+  refine ⟨hnil, ?_, fun x => ?_⟩
+  · rw [← hconst (valL val (m.fixVariables fixed).1.labels)]; exact a5
+  · rw [hconst x, ← hconst (valL val (m.fixVariables fixed).1.labels)]; exact a5
+
+/-- **order independence, CQM in place**: for two orderings of the same pairs both runs succeed, keep the same labels and
+    constraint labels, and the objective and every constraint left-hand side of both results — evaluated by label — equal
+    those of the original at the valuation (sense / rhs / weight / penalty unchanged: `CqmC.Rel`) -/
+theorem cqm_fix_order_independent [DecidableEq R] (m : CqmL R) (hm : m.c.WF) (hnd : m.labels.Nodup) (f1 f2 : List (Label × R))
+    (hp : f1.Perm f2) (hfd : (f1.map (·.1)).Nodup) (hall : ∀ p ∈ f1, p.1 ∈ m.labels) (val : Label → R)
+    (hval : ∀ p ∈ f1, val p.1 = p.2) :
+    (m.fixVariablesInplace f1).2 = true ∧ (m.fixVariablesInplace f2).2 = true ∧
+    (∀ l, l ∈ (m.fixVariablesInplace f1).1.labels ↔ l ∈ (m.fixVariablesInplace f2).1.labels) ∧
+    (m.fixVariablesInplace f1).1.clabels = (m.fixVariablesInplace f2).1.clabels ∧
+    CqmC.Rel (m.fixVariablesInplace f1).1.c m.c (valL val (m.fixVariablesInplace f1).1.labels) (valL val m.labels) ∧
+    CqmC.Rel (m.fixVariablesInplace f2).1.c m.c (valL val (m.fixVariablesInplace f2).1.labels) (valL val m.labels) := by
+  have hfd2 : (f2.map (·.1)).Nodup := (hp.map (·.1)).nodup_iff.mp hfd
+  have hall2 : ∀ p ∈ f2, p.1 ∈ m.labels := fun p h => hall p (hp.mem_iff.mpr h)
+  have hval2 : ∀ p ∈ f2, val p.1 = p.2 := fun p h => hval p (hp.mem_iff.mpr h)
+  obtain ⟨a1, _, _, _, a5, a6, a7⟩ := cqm_fix_many_inplace_eval m hm hnd f1 hfd hall val hval
+  obtain ⟨b1, _, _, _, b5, b6, b7⟩ := cqm_fix_many_inplace_eval m hm hnd f2 hfd2 hall2 val hval2
+  refine ⟨a1, b1, fun l => ?_, by rw [a6, b6], a7, b7⟩
+  rw [a5 l, b5 l]
+  have : l ∈ f1.map (·.1) ↔ l ∈ f2.map (·.1) := (hp.map (·.1)).mem_iff
+  rw [this]
+
+/-- **every variable of the CQM fixed in place**: no variable is left; objective and every left-hand side are the values
+    of the original at the fixed values, whatever sample they are evaluated at afterwards is irrelevant for the labels
+    (there are none), attributes unchanged -/
+theorem cqm_fix_all_vars [DecidableEq R] (m : CqmL R) (hm : m.c.WF) (hnd : m.labels.Nodup) (fixed : List (Label × R))
+    (hfd : (fixed.map (·.1)).Nodup) (hall : ∀ p ∈ fixed, p.1 ∈ m.labels) (hcover : ∀ l ∈ m.labels, l ∈ fixed.map (·.1))
+    (val : Label → R) (hval : ∀ p ∈ fixed, val p.1 = p.2) :
+    (m.fixVariablesInplace fixed).1.labels = [] ∧
+    CqmC.Rel (m.fixVariablesInplace fixed).1.c m.c (valL val []) (valL val m.labels) := by
+  obtain ⟨_, _, _, _, a5, _, a7⟩ := cqm_fix_many_inplace_eval m hm hnd fixed hfd hall val hval
+  have hnil : (m.fixVariablesInplace fixed).1.labels = [] := by
+    apply List.eq_nil_iff_forall_not_mem.mpr
+    intro l hl
+    have := (a5 l).mp hl
+    exact this.2 (hcover l this.1)
+  rw [hnil] at a7
+  exact ⟨hnil, a7⟩
+
+/-! ## the dict back-end (`dtype=object`) at any point of an edit history
+
+`LBqm` (`DimodModel/Convert.lean`, `PyHist.lean`): `_adj` as insertion-ordered dict of dicts.  `LBqm.fixVariable` is
+`QuadraticViewsMixin.fix_variable` as it runs on a `pyBQM` (`iter_neighborhood`, `add_linear`, `get_linear`, offset setter,
+`remove_variable`, each as coded).  `repEval` is the polynomial of the reported coefficients (`offset`, `linear`,
+`iter_quadratic`). -/
+
+/-- **`remove_variable(v)`** on any state satisfying the representation invariant removes exactly the terms that mention `v` -/
+theorem pybqm_remove_variable_eval (m : LBqm Rat) (g : LBqm.GInv m) (v : Label) (nv : ODict Label Rat)
+    (hv : ODict.get? m.adj v = some nv) :
+    ∃ m', m.removeVariable v = .ok m' ∧ LBqm.GInv m' ∧ m'.vt = m.vt ∧ okeys m'.adj = (okeys m.adj).erase v ∧
+      ∀ x, LBqm.evalL (1/2) m' x
+        = LBqm.evalL (1/2) m x - (LBqm.lbias v nv * x v + ((LBqm.others v nv).map fun p => p.2 * (x v * x p.1)).sum) :=
+  LBqm.removeVariable_evalL g v nv hv
+
+/-- **`fix_variable(v, a)` on the dict back-end, any invariant state**: succeeds for a variable of the model, `v` is gone, the
+    invariant and the vartype are kept, and at every assignment giving `v` the value `a` (in the domain or not) the energy
+    computed from the reported coefficients of the fixed model equals that of the original -/
+theorem pybqm_fix_eval (m : LBqm Rat) (g : LBqm.GInv m) (v : Label) (hv : v ∈ okeys m.adj) (a : Rat) :
+    ∃ m', m.fixVariable v a = .ok m' ∧ LBqm.GInv m' ∧ m'.vt = m.vt ∧ v ∉ okeys m'.adj ∧
+      ∀ x, x v = a → LBqm.repEval m' x = LBqm.repEval m x := by
+  obtain ⟨m', h1, h2, h3, h4, h5⟩ := LBqm.fixVariable_evalL g v hv a
+  have h4' : v ∉ okeys m'.adj := by rw [h4]; exact List.Nodup.not_mem_erase g.s.nodup
+  refine ⟨m', h1, h2, h3, h4', fun x hx => ?_⟩
+  rw [← LBqm.evalL_eq_repEval m' h2.toLInv, ← LBqm.evalL_eq_repEval m g.toLInv]
+  exact h5 x hx
+
+/-- **… at any point of an edit history**: after any history of calls through the model and its `.spin` / `.binary` views
+    (incl. relabelling and in-place vartype changes), fixing a variable of the model equals substituting its value -/
+theorem pybqm_fix_after_history (vt : En.VT) (calls : List (En.VT × LBqm.VOp Rat)) (v : Label)
+    (hv : v ∈ okeys (LBqm.vrun vt calls).adj) (a : Rat) :
+    ∃ m', (LBqm.vrun vt calls).fixVariable v a = .ok m' ∧ v ∉ okeys m'.adj ∧
+      ∀ x, x v = a → LBqm.repEval m' x = LBqm.repEval (LBqm.vrun vt calls) x := by
+  obtain ⟨m', h1, _, _, h4, h5⟩ := pybqm_fix_eval _ (LBqm.GInv.vrun vt calls) v hv a
+  exact ⟨m', h1, h4, h5⟩
+
+/-- **several variables on the dict back-end, any invariant state** (`fix_variables` = the loop over `fix_variable`): for
+    distinct variables of the model, in any order, the loop succeeds, the remaining variables are the others in their order, the
+    invariant is kept, and at every assignment giving the fixed variables their values the energy computed from the reported
+    coefficients is that of the original (simultaneous substitution) -/
+theorem pybqm_fix_many_eval (m : LBqm Rat) (g : LBqm.GInv m) (fixed : List (Label × Rat)) (hnd : (fixed.map (·.1)).Nodup)
+    (hall : ∀ p ∈ fixed, p.1 ∈ okeys m.adj) :
+    ∃ m', m.fixVariables fixed = .ok m' ∧ LBqm.GInv m' ∧ m'.vt = m.vt ∧
+      okeys m'.adj = (okeys m.adj).filter (fun l => !(fixed.map (·.1)).contains l) ∧
+      ∀ x, (∀ p ∈ fixed, x p.1 = p.2) → LBqm.repEval m' x = LBqm.repEval m x := by
+  obtain ⟨m', h1, h2, h3, h4, h5⟩ := LBqm.fixVariables_evalL fixed m g hnd hall
+  refine ⟨m', h1, h2, h3, h4, fun x hx => ?_⟩
+  rw [← LBqm.evalL_eq_repEval m' h2.toLInv, ← LBqm.evalL_eq_repEval m g.toLInv]
+  exact h5 x hx
+
+/-- … after any history of calls through the model and its views; and with **every variable fixed** nothing is left and the
+    offset of the result is the energy of the original at the fixed values -/
+theorem pybqm_fix_many_after_history (vt : En.VT) (calls : List (En.VT × LBqm.VOp Rat)) (fixed : List (Label × Rat))
+    (hnd : (fixed.map (·.1)).Nodup) (hall : ∀ p ∈ fixed, p.1 ∈ okeys (LBqm.vrun vt calls).adj) :
+    ∃ m', (LBqm.vrun vt calls).fixVariables fixed = .ok m' ∧
+      (∀ x, (∀ p ∈ fixed, x p.1 = p.2) → LBqm.repEval m' x = LBqm.repEval (LBqm.vrun vt calls) x) ∧
+      ((∀ l ∈ okeys (LBqm.vrun vt calls).adj, l ∈ fixed.map (·.1)) → m'.adj = [] ∧
+        ∀ x, (∀ p ∈ fixed, x p.1 = p.2) → m'.off = LBqm.repEval (LBqm.vrun vt calls) x) := by
+  obtain ⟨m', h1, _, _, h4, h5⟩ := pybqm_fix_many_eval _ (LBqm.GInv.vrun vt calls) fixed hnd hall
+  refine ⟨m', h1, h5, fun hcover => ?_⟩
+  have hnil : m'.adj = [] := by
+    have : okeys m'.adj = [] := by
+      rw [h4]
+      apply List.filter_eq_nil_iff.mpr
+      intro l hl
+      simp [hcover l hl]
+    unfold okeys at this
+    exact List.map_eq_nil_iff.mp this
+  refine ⟨hnil, fun x hx => ?_⟩
+  rw [← h5 x hx]
+  unfold LBqm.repEval LBqm.iterQuadratic
+  rw [hnil]
+  simp [LBqm.iterQuadratic.go]
 
 end C03
